@@ -17,6 +17,10 @@ Theorem created_stable : created_stable_stmt good.
 Proof. exact created_stable_good. Qed.
 Print Assumptions created_stable.
 
+Theorem created_stable_aug : created_stable_aug_stmt good.
+Proof. exact created_stable_aug_good. Qed.
+Print Assumptions created_stable_aug.
+
 (* a successful add_f_node / add_s_node creates exactly one node, whose name was not a node before *)
 Theorem fresh_names : fresh_f_stmt good.
 Proof. exact fresh_f_good. Qed.
